@@ -14,11 +14,11 @@ from . import c05, c07, defects
 BATCH = 200
 
 
-def observe(cli, types):
-    files = c05.build_batch(types)
+def observe(cli, types, external=(), config=None):
+    files = c05.build_batch(types, external=external)
     res = {}
     for mode in ("none", "zod"):
-        g = proj.generate(cli, files, mode=mode, tag="c10")
+        g = proj.generate(cli, files, mode=mode, tag="c10", config=config)
         try:
             if g.run.timed_out:
                 return {"inconclusive": "watchdog"}
@@ -88,9 +88,13 @@ def same_structure(t, n, z):
     return False
 
 
+MAPPED = {"DateTime<Utc>": "string", "Uuid": "string", "PathBuf": "string", "Decimal": "number"}
+
+
 def run_batch(a):
-    cli, types, values = a
-    r = observe(cli, types)
+    cli, types, values = a[:3]
+    mapped = len(a) > 3 and a[3]
+    r = observe(cli, types, external=tuple(MAPPED) if mapped else (), config={"type_mappings": MAPPED} if mapped else None)
     if "inconclusive" in r or "blocked" in r:
         return r
     out = {"names_none": r["none"]["decl"], "names_zod": r["zod"]["decl"], "params_none": r["none"]["params"], "params_zod": r["zod"]["params"],
@@ -188,11 +192,22 @@ def run(tier):
     types = list(enumerate(uniq))
     tmap = dict(types)
     jobs = [(cli, types[k:k + BATCH], {rg.rust(t): values[rg.rust(t)] for (_, t) in types[k:k + BATCH] if rg.rust(t) in values}) for k in range(0, len(types), BATCH)]
+    # the same comparison under a type-mapping table (foreign types, one of them keyed by a generic instantiation): a mapped
+    # position must have the same structure in both modes as well
+    from . import c18
+    mtypes = []
+    for nm in MAPPED:
+        mtypes.extend(c18.positions(nm)[: (12 if tier == "quick" else 40)])
+    mtypes = [(len(types) + k, t) for k, t in enumerate(mtypes)]
+    tmap.update(dict(mtypes))
+    jobs.append((cli, mtypes, {}, True))
     res = common.pmap(run_batch, jobs)
     for (job, r) in zip(jobs, res):
         if "inconclusive" in r:
             v.inconclusive.append("watchdog")
             continue
+        if len(job) > 3 and job[3]:
+            v.count("keys_compared_under_type_mappings", r.get("compared", 0))
         if "blocked" in r:
             v.blocked += len(job[1])
             v.evaluations += len(job[1])
@@ -202,13 +217,17 @@ def run(tier):
         v.count("keys_compared", r["compared"])
         v.count("serde_values_checked", r["values_checked"])
         v.count("top_level_none_sent_as_omitted_key", r.get("option_null_omitted", 0))
-        wit = lambda i: proj.witness_of(c05.build_batch([(i, tmap[i])]), "both", extra={"type": rg.rust(tmap[i])})
+        is_mapped = len(job) > 3 and job[3]
+        wit = lambda i: proj.witness_of(c05.build_batch([(i, tmap[i])], external=tuple(MAPPED) if is_mapped else ()), "both",
+                                        config={"type_mappings": MAPPED} if is_mapped else None, extra={"type": rg.rust(tmap[i])})
         if r["names_none"] != r["names_zod"]:
             v.violation("C10 type-name-sets-differ", "none declares %s, zod declares %s" % (sorted(set(r["names_none"]) - set(r["names_zod"])), sorted(set(r["names_zod"]) - set(r["names_none"]))), wit(job[1][0][0]))
         if r["params_none"] != r["params_zod"]:
             v.violation("C10 params-name-sets-differ", "only none: %s; only zod: %s" % (sorted(set(r["params_none"]) - set(r["params_zod"]))[:5], sorted(set(r["params_zod"]) - set(r["params_none"]))[:5]), wit(job[1][0][0]))
         for (i, site, n, z) in r["diff"]:
             t = tmap[i]
+            if is_mapped:
+                t = c18.subst(t, MAPPED)       # judged as the type it is mapped to
             sigs = classify(t, site, n, z)
             what = "%s site, Rust type `%s`: plain mode declares %s, Zod schema describes %s" % (
                 site, rg.rust(t), (sh.show(n[0]) + ("?" if n[1] else "")) if n else "<nothing usable>", (sh.show(z[0]) + ("?" if z[1] else "")) if z else "<nothing usable>")
